@@ -65,6 +65,21 @@ pub fn convert_objects(
         old_stacking(&mut osu_objects, stack_threshold);
     }
 
+    #[cfg(rosu_pp_verif)]
+    crate::verif::trace::emit(|| {
+        let heights: Vec<String> = osu_objects
+            .iter()
+            .map(|h| h.stack_height.to_string())
+            .collect();
+
+        format!(
+            r#"{{"g":"osu_stack","version":{},"threshold":{},"heights":[{}]}}"#,
+            map.version,
+            stack_threshold,
+            heights.join(",")
+        )
+    });
+
     for h in osu_objects.iter_mut() {
         h.stack_offset = scaling_factor.stack_offset(h.stack_height);
 
